@@ -23,10 +23,15 @@ def sh(cmd, **kw):
     return subprocess.run(cmd, stdout=subprocess.PIPE, stderr=subprocess.STDOUT, **kw)
 
 
+PREFIX = os.environ.get("SEED_PREFIX", "/tmp/seed_")
+VARMAP = dict(x.split(":") for x in os.environ.get("SEED_VARMAP", "A:A,B:B").split(","))
+
+
 def one(pid, var):
-    src = "/tmp/seed_%s_out/%s" % (pid, var)
-    sid = "%s%s" % (pid, var)
-    res = {"id": sid, "property": pid}
+    src = "%s%s_out/%s" % (PREFIX, pid, var)
+    sid = "%s%s" % (pid, VARMAP[var])
+    
+    res = {"id": sid, "property": pid, "src": src}
     if not os.path.exists(os.path.join(src, "patch.diff")):
         res["status"] = "missing"
         return res
@@ -74,9 +79,10 @@ def one(pid, var):
 
 def main():
     only = sys.argv[1:]
-    todo = [("C%02d" % i, v) for i in range(1, 21) for v in "AB"]
+    todo = [("C%02d" % i, v) for i in range(1, 21) for v in VARMAP]
     if only:
-        todo = [t for t in todo if t[0] + t[1] in only or t[0] in only]
+        todo = [t for t in todo if t[0] in only]
+    todo = [t for t in todo if os.path.exists("%s%s_out/%s/patch.diff" % (PREFIX, t[0], t[1]))]
     os.makedirs(SCR, exist_ok=True)
     out = {}
     with concurrent.futures.ThreadPoolExecutor(6) as ex:
@@ -84,7 +90,7 @@ def main():
             print(r["id"], r["status"], "clean", r.get("demo_clean_rc"), "patched", r.get("demo_patched_rc"), "suite", r.get("suite_passed"), r.get("stable_pass_broken"), r.get("detail", ""))
             sys.stdout.flush()
             out[r["id"]] = r
-    with open("/var/tmp/vpseed/results.json", "w") as f:
+    with open(os.environ.get("SEED_RESULTS", "/var/tmp/vpseed/results.json"), "w") as f:
         json.dump(out, f, indent=1)
 
 
